@@ -44,7 +44,7 @@ def main(names):
         if names and name not in names:
             continue
         (rep, sp), = rc.batch([p])
-        real = tplgen.run_real(p, limit=3.0)
+        real = tplgen.run_real(p, limit=20.0)
         dm, ds = rc.cmp_model(real, rep), rc.cmp_spec(real, sp)
         pl = rc.replay_payload(p, real, rep, sp, why="witness")
         status = "OK" if (dm is None and ds is not None) else "NOT-A-WITNESS"
@@ -80,7 +80,7 @@ def extra_witnesses():
     for name, raise_at in (("C06-error-leak", [1, 0]), ("C06-render-context-layer", [0, 0])):
         fp = dict(p, **{"raise": raise_at})
         (rep, _), = rc.batch([fp], with_spec=False)
-        real = tplgen.run_real(fp, limit=3.0)
+        real = tplgen.run_real(fp, limit=20.0)
         out[name] = {"finding": name, "source": rc.describe(fp), "program": fp,
                      "real": {"err": real["err"], "registries_after": real["residue"],
                               "render_context_depth_before_after": [real.get("rc_before"), real.get("rc_after")]},
@@ -120,11 +120,11 @@ def extra_witnesses():
     old = tplgen.p_nodes
     try:
         tplgen.p_nodes = c10.p_family
-        a = tplgen.run_real(famprog, limit=3.0)
+        a = tplgen.run_real(famprog, limit=20.0)
     finally:
         tplgen.p_nodes = old
         loader.templates_dict.pop("card_base", None)
-    bb = tplgen.run_real(flat, limit=3.0)
+    bb = tplgen.run_real(flat, limit=20.0)
     out["C10-shared-block-names"] = {"finding": "C10-shared-block-names", "family": {"card_base": c10.p_family(fam["card_base"]), "card": c10.p_family(lib[0]["template"]),
                                      "page": c10.p_family(page)}, "family_output": a["err"] or tplgen.canon_real(a["out"], a["hash2name"]),
                                      "flattened_output": bb["err"] or tplgen.canon_real(bb["out"], bb["hash2name"])}
